@@ -100,6 +100,36 @@ def one_config(job):
                        "_m": dict(meta0, k=int(i), long_array=nlong, sun_deg=float(np.degrees(sa[i])), moon_deg=float(np.degrees(ma[i])),
                                   phase_deg=float(np.degrees(ph[i])))})
         ev.append({"kind": "ret", "nkept": nlong, "nret": int(len(dark)), "_m": dict(meta0, entry="sun_moon_cut over a long array")})
+    if job.get("long_throw"):
+        # one throw of more instants than any internal block size (2**16), not a multiple of it: a sample of the instants (both ends,
+        # around every multiple of 4096, random ones) is judged like any other instant; a day-long window so that the source sets and rises
+        NL = job["long_throw"]
+        cfgL = make_config(dict(spec, obst=86400.0))
+        gL = RegionGeomToO(cfgL)
+        tL = cfgL.simulation.target
+        gL.throw(NL)
+        pickL = set(range(8)) | set(range(NL - 40, NL)) | set(int(i) for i in rng.integers(0, NL, 120))
+        for kk in range(4096, NL, 4096):
+            pickL |= {kk - 1, kk}
+        pickL = np.array(sorted(pickL))
+        tsecL = np.atleast_1d((gL.times - gL.too_source.eventtime).sec)
+        ev.append({"kind": "ret", "nkept": NL, "nret": int(len(tsecL)), "_m": dict(meta0, entry="long throw: instants")})
+        hL = np.asarray(gL.horizon_mask)
+        if len(tsecL) == NL and len(hL) == NL:
+            keptL = np.zeros(NL, dtype=bool)
+            keptL[np.flatnonzero(hL)[np.asarray(gL.volume_mask)]] = True
+            bL = np.zeros(NL); thL = np.zeros(NL); pL = np.zeros(NL)
+            accL = [np.atleast_1d(np.asarray(x, dtype=float)) for x in (gL.beta_rad(), gL.thetas(), gL.pathLens())]
+            if all(len(x) == int(keptL.sum()) for x in accL):
+                bL[keptL], thL[keptL], pL[keptL] = accL
+            ipL = cfgL.detector.initial_position
+            th = sky.times_of(tL.source_date, tL.source_date_format, pickL * tL.source_obst / NL)
+            altL, _ = sky.source_altaz(tL.source_RA, tL.source_DEC, ipL.latitude, ipL.longitude, ipL.altitude, th)
+            for j, i in enumerate(pickL):
+                ev.append({"kind": "inst", "k": int(i), "N": NL, "T": bits(tL.source_obst), "tsec": bits(tsecL[i]), "alt": bits(altL[j]),
+                           "H": bits(float(gL.core_alt)), "R": bits(float(gL.earth_radius)), "limb": bits(cfgL.simulation.angle_from_limb),
+                           "kept": bool(keptL[i]), "beta": bits(bL[i]), "theta": bits(thL[i]), "path": bits(pL[i]),
+                           "_m": dict(meta0, entry="long throw", k=int(i), N=NL, alt_deg=float(np.degrees(altL[j])), kept=bool(keptL[i]))})
     return ev
 
 
@@ -108,7 +138,8 @@ def run(tier="quick", seed=0):
     thorough = tier == "thorough"
     pr.model_check("MCGeomTarget", workers=16, timeout=900)
     jobs = [{"seed": seed * 1000 + j, "nconf": 20 if thorough else 3, "ninst": 400 if thorough else 150,
-             "long_sky": (9000 if thorough else 4500) if j < (4 if thorough else 2) else 0} for j in range(42 if thorough else 14)]
+             "long_sky": (9000 if thorough else 4500) if j < (4 if thorough else 2) else 0,
+             "long_throw": (140003 if thorough else 70001) if j in (2, 3) else 0} for j in range(42 if thorough else 14)]
     res = par.pmap(one_config, jobs, workers=14)
     ev = [e for r in res for e in r]
     pr.validate("TraceGeomTarget", ev, name="target-geometry", chunks=16)
